@@ -45,7 +45,7 @@ struct E4 : Engine {
 		J ops = J::arr();
 		for(int i=0;i<nops;i++){ J o = J::obj(); o["c"] = (int)r.below(nc); o["t"] = (int)r.below(2); unsigned y = r.below(100);
 			if(y < 34){ o["op"] = "store"; o["k"] = (int)r.below(nkeys); J tr = J::arr(); int nt = ntrig ? r.below(3) : 0; for(int k=0;k<nt;k++) tr.push((int)r.below(ntrig)); if(r.below(8) == 0) tr.push(100 + (int)r.below(nkeys)); if(r.below(25) == 0) for(int k=0;k<30;k++) tr.push(50+k); if(r.below(30) == 0) tr.push(7); o["trig"] = tr;
-				o["dl"] = r.below(10) == 0 ? -1 : r.below(12) == 0 ? 1000000000 : 5 + (int)r.below(100); unsigned z = r.below(10); o["len"] = z == 0 ? 0 : z < 7 ? (int)r.below(60) : z < 9 ? (int)r.below(4000) : (int)r.below(thorough ? 100000 : 30000); o["fill"] = (int)r.below(3); }
+				o["dl"] = r.below(10) == 0 ? -1 : r.below(12) == 0 ? 1000000000 : 5 + (int)r.below(100); unsigned z = r.below(10); o["len"] = z == 0 ? 0 : z < 7 ? (int)r.below(60) : z < 9 ? (int)r.below(p.geti("chan_cap") < 200 ? 300 : 4000) : (int)r.below(p.geti("chan_cap") < 200 ? 600 : thorough ? 100000 : 30000); o["fill"] = (int)r.below(3); }
 			else if(y < 76){ o["op"] = "fetch"; o["k"] = (int)r.below(nkeys); o["how"] = (int)r.below(4); }
 			else if(y < 86){ o["op"] = "rise"; o["tr"] = r.below(3) == 0 ? 100 + (int)r.below(nkeys) : (ntrig ? (int)r.below(ntrig) : 100); }
 			else if(y < 90){ o["op"] = "clear"; }
@@ -137,7 +137,7 @@ struct E4 : Engine {
 					cnt["ops"]++; std::string where = "op#" + std::to_string(i) + " client " + std::to_string(who[i].first) + (nodes[who[i].first].l1 >= 0 ? " (L1 limit " + std::to_string(nodes[who[i].first].l1) + ")" : " (no L1)") + " " + op.str();
 					if(!errs[i].empty()){ cnt["ops_failed"]++; if(!fault){ res.fail("operation-failed",where + " failed without any fault: " + errs[i]); break; }
 						// an operation that failed may or may not have taken effect on some servers
-						if(op.kind == "store"){ auto it = model.m.find(op.key); if(it != model.m.end()){ superseded[op.key].push_back(it->second.val); model.m.erase(it); } unsure[op.key].insert(op.val); }
+						if(op.kind == "store"){ auto it = model.m.find(op.key); if(it != model.m.end()){ unsure[op.key].insert(it->second.val); model.m.erase(it); } unsure[op.key].insert(op.val); }   // the old value may still be current, or the new one
 						else if(op.kind == "rise" || op.kind == "clear"){ for(auto &kv:model.m){ unsure[kv.first].insert(kv.second.val); } if(op.kind == "clear") { /* may have cleared some servers only */ } }
 						continue; }
 					// ---- model and oracle
